@@ -41,6 +41,7 @@ def check(cx):
         'R12.1 LIST/NAMES/WHO with an explicit channel name: reply kinds reachable for a secret channel the requester is not on == reply kinds reachable for a non-existent channel; channel-iterating forms emit nothing per hidden channel',
         'R12.2 WHO/NAMES/WHOIS: no per-user reply or name entry is reachable for an invisible user sharing no channel with the requester (same as for a non-existent user)',
         'R12.3 WHOIS channel lists omit secret channels the requester is not on',
+        'R12.4 an outsider cannot speak into a secret channel: every channel fan-out of PRIVMSG/NOTICE under +s entails that the sender is a member',
     ]
     ck.does_not_decide += ['numerics of PRIVMSG/MODE/TOPIC that distinguish secret from absent channels (outside the four commands of the statement)',
                            'timing side channels']
@@ -179,3 +180,18 @@ def check(cx):
         memb = [a for a in atoms(e.pc) if a[0] == 'is' and a[1][0] == 'get' and a[1][2] == CONN_NICK and path_of(a[1][1])[-1:] == ['users']]
         if not sec or sat(And(e.pc, *[Atom(a) for a in sec], *[Not(Atom(a)) for a in memb])) is not None:
             r3.violation('process_whois|leak|secret-channel-entry', 'WHOIS lists a secret channel among the user\'s channels', loc=cx.loc(e.node))
+
+
+    # ---------------------------------------------------------------- R12.4 no speaking into a secret channel
+    from .msg import model, V
+    r4 = cx.rule('R12.4', 'outsiders cannot speak into a secret channel', floor=1, kind='required-guard')
+    M = model(cx)
+    for e, snd, coll, setname, k in M.fanouts():
+        if coll is None:
+            continue
+        f, unk = M.abstract(e.pc)
+        r4.instance('fan-out over %s: secret => sender is a member' % (setname or 'members'))
+        ok, m = entails(And(f, V('s')), V('member'))
+        if not ok:
+            r4.violation('process_privmsg_notice|outsider-speaks-into-secret|%s' % (setname or 'members'), 'a message from a non-member reaches %s '
+                         'of a secret channel (%s)' % (setname or 'the members', model_str(m)), loc=cx.loc(e.node))
